@@ -129,6 +129,7 @@ def _nsum(first, *rest):
 class C13(Scenario):
     modules = ["mxlpy.model", "mxlpy.simulator"]
     float_shim = ["mxlpy.model", "mxlpy.simulator"]
+    isinstance_shim = ["mxlpy.model"]
     nsum = staticmethod(_nsum)
 
     def __init__(self, spec):
